@@ -4,6 +4,7 @@ package main
 
 import (
 	"fmt"
+	"strconv"
 	"strings"
 	"time"
 
@@ -59,6 +60,20 @@ type sut struct {
 	push  *model.PushContext
 	watch *meshwatcher.TestWatcher
 	av    *ambientView
+	vers  map[string]int // real GetVersion() strings seen in this case -> index of first appearance
+}
+
+// versionIndex: the hash itself cannot be predicted by the model; both sides print the index of the
+// version among the distinct versions seen so far in the case (equal versions <-> equal index).
+func (s *sut) versionIndex(v string) int {
+	if s.vers == nil {
+		s.vers = map[string]int{}
+	}
+	if i, ok := s.vers[v]; ok {
+		return i
+	}
+	s.vers[v] = len(s.vers)
+	return s.vers[v]
 }
 
 func newSUT(root string) *sut {
@@ -110,7 +125,7 @@ func configOf(p paIn) config.Config {
 			Namespace:         p.ns,
 			CreationTimestamp: time.Unix(p.time, 0).UTC(),
 			UID:               p.ns + "/" + p.name,
-			ResourceVersion:   "1",
+			ResourceVersion:   strconv.Itoa(p.rv),
 		},
 		Spec: specOf(p),
 	}
@@ -187,8 +202,8 @@ func (s *sut) query(ns string, labels [][2]string, svcNs []string, ports []uint3
 	if len(names) > 0 {
 		cfg = strings.Join(names, ",")
 	}
-	return fmt.Sprintf("M=%s PP=%s Q=%s NS=%s G=%s BE=%s CFG=%s", modeTok(merged.Mode), sortedPortModes(pp), q,
-		modeTok(ap.GetNamespaceMutualTLSMode(ns)), modeTok(ap.GetGlobalMutualTLSMode()), modeTok(be), cfg)
+	return fmt.Sprintf("M=%s PP=%s Q=%s NS=%s G=%s BE=%s CFG=%s V=%d", modeTok(merged.Mode), sortedPortModes(pp), q,
+		modeTok(ap.GetNamespaceMutualTLSMode(ns)), modeTok(ap.GetGlobalMutualTLSMode()), modeTok(be), cfg, s.versionIndex(ap.GetVersion()))
 }
 
 var drEnum = map[string]networkingapi.ClientTLSSettings_TLSmode{
@@ -226,5 +241,15 @@ func (s *sut) check(ns string, labels [][2]string, port uint32, epTLS bool, dr s
 	}
 	r := endpoints.VerifCheckMtlsEnabled(s.push, view, 80, drc, "", ep, waypoint)
 	be := s.push.BestEffortInferServiceMTLSMode(view, nil, &model.Service{Attributes: model.ServiceAttributes{Namespace: ns}}, &model.Port{Port: 80})
-	return fmt.Sprintf("%s BE=%s NS=%s", wire.B(r), modeTok(be), modeTok(view.GetNamespaceMutualTLSMode(ns)))
+	return fmt.Sprintf("%s BE=%s NS=%s V=%d", wire.B(r), modeTok(be), modeTok(view.GetNamespaceMutualTLSMode(ns)), s.versionIndex(view.GetVersion()))
+}
+
+// scopedVersion: GetVersion() of the client's filtered view.
+func (s *sut) scopedVersion(clientNs string, importedNs []string) string {
+	s.policies()
+	var imported []*model.Service
+	for _, n := range importedNs {
+		imported = append(imported, &model.Service{Attributes: model.ServiceAttributes{Name: "svc", Namespace: n}})
+	}
+	return model.VerifSelectAuthnPolicies(s.push, clientNs, imported).GetVersion()
 }
